@@ -30,6 +30,12 @@ def cases(draw, tier):
     else:
         sc = draw(gen.state_case(types=[t], n=(1, nmax), nh=(1, 4), na=(1, 3), scales=[0.05, 0.5, 0.5, 2.0, 2.0, 2.0, 8.0, 20.0], bound=60.0))
     n = sc["n"]
+    polarised = draw(st.integers(0, 7)) == 0
+    if polarised and not sc.get("large"):
+        # value regime: strongly polarised amplitude network (visible biases of magnitude 12..30, either sign) - outcome probabilities
+        # span many orders of magnitude WITHOUT cancellation, i.e. tiny but well-conditioned
+        sc["am"]["b"] = [draw(st.sampled_from([-1.0, 1.0])) * draw(st.floats(12.0, 30.0, allow_nan=False, width=64)) for _ in range(n)]
+        sc["polarised"] = True
     N = draw(st.integers(1, 8))
     U01 = st.floats(0, 1, exclude_max=True, allow_nan=False, width=64)
     rows = []
@@ -48,7 +54,7 @@ def cases(draw, tier):
         else:
             b = draw(st.sampled_from(allb)) if draw(st.booleans()) else rows[draw(st.integers(0, i - 1))]["basis"]
         rows.append({"basis": b, "u": draw(U01)})
-        if draw(st.integers(0, 9)) == 0:
+        if draw(st.integers(0, 9)) == 0 or (polarised and draw(st.booleans())):
             rows[-1]["rare"] = True
     big = draw(st.integers(0, 19)) == 0
     if big:
